@@ -114,6 +114,10 @@ func canonicalOf(x psatoken.IClaims) string {
 		return t.CanonicalProfile
 	case *extprof.ExtOwnerClaims:
 		return t.CanonicalProfile
+	case *extprof.ExtGroupClaims:
+		return t.CanonicalProfile
+	case *extprof.ExtNestedClaims:
+		return t.CanonicalProfile
 	}
 	return "?"
 }
